@@ -22,6 +22,7 @@ history: the tree that is handed to `Config(...)` is walked for RequiredNode ins
 before the call; error iff one is there, all paths, nothing evaluated. The model answers for the
 document prefix of each construction and is compared with it."""
 from props.mergefam import *
+import random
 from evalrun import WorldImpl, EvalContext, conv_val
 
 WORLD = GE.WORLD
@@ -181,6 +182,32 @@ def gen_case(rng, hist=False):
     return case
 
 
+def gen_prune_case(rng):
+    """a list holding placeholders is pruned by a later deleting list while some of its elements are protected by a higher priority
+    (their own tag, or a `!merge {i: !force v}` stage in between): elements are removed from the middle of the list, the survivors
+    move down - the placeholders the error lists must be the ones of the merged tree as it is AFTER that (seeded change S5-C14: the
+    child map was not renumbered after a removal)"""
+    n = rng.choice([2, 3, 3, 4])
+    def elem():
+        r = rng.random()
+        kw = {'prio': 1} if rng.random() < 0.3 else {}
+        if r < 0.4: return Sempty('required', kw=kw)
+        if r < 0.7: return S(rng.choice(['b', 'c', 7]), kw=kw)
+        if r < 0.85: return M([('x', Sempty('required') if rng.random() < 0.5 else S(1))], kw=kw)
+        return M([(0, S(1))], tag={'k': 'call', 'f': 'rec.f'}, kw=kw)
+    key = rng.choice(['inputs', 'l'])
+    wrap = rng.choice([[], [], ['n']])
+    docs = [{'raw': G.nest(wrap + [key], Q([elem() for _ in range(n)]))}]
+    if rng.random() < 0.6:
+        idx = rng.sample(range(n), rng.choice([1, 1, 2]))
+        docs.append({'raw': G.nest(wrap + [key], M([(i, S('x%d' % i, kw={'prio': 1}) if rng.random() < 0.7 else Sempty('required', kw={'prio': 1})) for i in sorted(idx)], kw={'del': False}))})
+    last = Q([S('new') if rng.random() < 0.7 else Sempty('required') for _ in range(rng.choice([0, 1, 1, 2]))])
+    docs.append({'raw': G.nest(wrap + [key], last)})
+    if rng.random() < 0.3:
+        docs.append({'raw': G.nest(wrap + [key], M([(0, S('late'))], kw={'del': False}))})
+    return {'docs': docs, 'actions': ['prune-list']}
+
+
 def cut_points(docs):
     """numbers of leading documents after which the config is constructed (the last one always)"""
     return [i + 1 for i, d in enumerate(docs) if d.get('cut') and i + 1 < len(docs)] + [len(docs)]
@@ -318,6 +345,11 @@ class C14(MergeFamProp):
             if not c.get('hist') and rng.random() < self.P_SHARED:
                 c = add_shared(rng, c) or c
             out.append(c)
+        r2 = random.Random(rng.random())
+        for _ in range(max(4, n // 10)):
+            c = gen_prune_case(r2)
+            c['style'] = ['flow', 0, 0]
+            out.append(c)
         return out
 
     def impl(self, case):
@@ -384,6 +416,19 @@ class C14(MergeFamProp):
         root = tree['ok']
         if root is None:
             return None
+        def mismatch(n, pre=()):
+            if n.get('storage_mismatch'):
+                return pre
+            for k, c in n.get('c', []):
+                r = mismatch(c, pre + (sc_py(k),))
+                if r is not None:
+                    return r
+            return None
+        mm = mismatch(root)
+        if mm is not None:
+            # check_missing walks the child map, evaluation the builtin storage: when they disagree the listed paths mean nothing
+            return (f'the merged tree is inconsistent at {list(mm)}: child map and builtin storage of the container disagree, so the '
+                    f'placeholders that check_missing lists are not the ones evaluation would meet')
         expected = [NodePath.join_path(list(p)) for p in required_in_dump(root)]
         is_req = cfg.get('err') == 'required'
         if expected and not is_req:
